@@ -32,11 +32,6 @@ pub open spec fn is_default_dep(d: Dependency) -> bool {
     d.maybe_code is None && d.maybe_type is None && d.maybe_deno_types_specifier is None && d.maybe_attribute_type is None
       && !d.is_dynamic && d.imports@.len() == 0
 }
-/// R21: `unreachable!()`
-#[verifier::external_body]
-pub fn vx_unreachable() -> !
-    requires false,
-{ unreachable!() }
 /// `b.then(f)` (R7 wrapper)
 #[verifier::external_body]
 pub fn vx_then<T, F: FnOnce() -> T>(b: bool, f: F) -> (r: Option<T>)
